@@ -232,7 +232,7 @@ fn strategy(tier: Tier) -> BoxedStrategy<Case> {
         1 => 1.01f64..1000.0,
         1 => 1.01f64..40.0,
     ];
-    let backlog = prop_oneof![4 => Just(0usize), 4 => Just(1), 4 => Just(10), 4 => Just(1000), 4 => 0usize..3000, 1 => prop_oneof![Just(usize::MAX), Just(usize::MAX - 1), Just(1usize << 40)]];
+    let backlog = prop_oneof![4 => Just(0usize), 4 => Just(1), 4 => Just(10), 4 => Just(1000), 4 => 0usize..3000, 1 => prop_oneof![Just(usize::MAX), Just(usize::MAX - 1), Just(1usize << 62)]];
     let n = prop_oneof![
         2 => prop_oneof![Just(1u32), Just(3), Just(10), Just(100), Just(1000), Just(10_000), Just(100_000)],
         2 => 1u32..3000,
@@ -257,7 +257,7 @@ pub fn checks() -> Vec<Box<dyn DynCheck>> {
 }
 
 pub fn run(ctx: &Ctx) {
-    ctx.set_rule("generated: scale K0..K3 x delta in {1.001, 1.01, 1.03, 1.05, 1.1, …, 1000} + random x max_backlog_size in {0,1,10,1000, rarely 2^40, usize::MAX - 1, usize::MAX} + random x n in {1,3,10,...,1e5} + random (thorough up to 1e6; n capped so that merge work stays within budget) x data family (smooth: uniform, normal, exponential, sorted, reverse-sorted; ties/cliffs: lognormal sigma=3, 5-point discrete, half the mass tied + far block, two blocks 1e6 apart, constant) x a unit factor 10^e (e in -30..=30 in 40 % of the cases: rank statistics must not depend on the magnitude of the values) x interleaved reads at generated stream positions and, in 40 % of the cases, a read after every r inserts (r from 1 to 2000). Oracle: n_centroids() <= delta + 3 at every read and at the end; for q on a 201-point grid + generated q the rank interval of quantile(q) in the sorted data is within c*W + 2/n of q (c = 1 smooth, 3 ties/cliffs; K2/K3 judged for n >= delta); the same for cdf(x) at 51 data points + generated x. Non-trivial: n > delta and at least one merge before the end. Distinct = hash of the case. evaluations = digests + probes.");
+    ctx.set_rule("generated: scale K0..K3 x delta in {1.001, 1.01, 1.03, 1.05, 1.1, …, 1000} + random x max_backlog_size in {0,1,10,1000, rarely 2^62, usize::MAX - 1, usize::MAX} + random x n in {1,3,10,...,1e5} + random (thorough up to 1e6; n capped so that merge work stays within budget) x data family (smooth: uniform, normal, exponential, sorted, reverse-sorted; ties/cliffs: lognormal sigma=3, 5-point discrete, half the mass tied + far block, two blocks 1e6 apart, constant) x a unit factor 10^e (e in -30..=30 in 40 % of the cases: rank statistics must not depend on the magnitude of the values) x interleaved reads at generated stream positions and, in 40 % of the cases, a read after every r inserts (r from 1 to 2000). Oracle: n_centroids() <= delta + 3 at every read and at the end; for q on a 201-point grid + generated q the rank interval of quantile(q) in the sorted data is within c*W + 2/n of q (c = 1 smooth, 3 ties/cliffs; K2/K3 judged for n >= delta); the same for cdf(x) at 51 data points + generated x. Non-trivial: n > delta and at least one merge before the end. Distinct = hash of the case. evaluations = digests + probes.");
     ctx.assume("rank of quantile(q) judged against the closed interval [fraction < x - tol, fraction <= x + tol] with tol = 16 ulps of the data range x n");
     ctx.run_regressions(&[&C04]);
     let t = ctx.tier;
